@@ -4,6 +4,7 @@ import (
 	"fmt"
 	"go/token"
 	"go/types"
+	"slices"
 	"sort"
 	"strings"
 
@@ -49,38 +50,92 @@ type reqLiteral struct {
 
 func reqLiterals(p *core.Prog) []reqLiteral {
 	var out []reqLiteral
-	for _, fn := range p.ModFuncs {
-		for _, b := range fn.Blocks {
-			for _, in := range b.Instrs {
-				al, ok := in.(*ssa.Alloc)
-				if !ok {
-					continue
-				}
-				pt, ok := al.Type().(*types.Pointer)
-				if !ok || !core.IsModNamed(pt.Elem(), "internal/reghttp", "Req") {
-					continue
-				}
-				if _, isPtr := pt.Elem().(*types.Pointer); isPtr {
-					continue
-				}
-				lit := reqLiteral{Fn: fn, Alloc: al, Fields: map[string]ssa.Value{}}
-				for _, ref := range *al.Referrers() {
-					fa, ok := ref.(*ssa.FieldAddr)
-					if !ok {
-						continue
-					}
-					name := core.FieldName(fa.X.Type(), fa.Field)
-					for _, r2 := range *fa.Referrers() {
-						if st, ok := r2.(*ssa.Store); ok && st.Addr == fa {
-							if _, dup := lit.Fields[name]; dup {
-								lit.Fields[name+"#dup"] = st.Val
-							}
-							lit.Fields[name] = st.Val
+	isReqCell := func(v ssa.Value) (*ssa.Alloc, bool) {
+		al, ok := v.(*ssa.Alloc)
+		if !ok {
+			return nil, false
+		}
+		pt, ok := al.Type().(*types.Pointer)
+		if !ok || !core.IsModNamed(pt.Elem(), "internal/reghttp", "Req") {
+			return nil, false
+		}
+		if _, isPtr := pt.Elem().(*types.Pointer); isPtr {
+			return nil, false
+		}
+		return al, true
+	}
+	// the field stores of a cell; a whole-struct copy from another Req cell (`req := common`) brings
+	// that cell's fields with it, later field stores override them
+	var fieldsOf func(al *ssa.Alloc, depth int) map[string]ssa.Value
+	fieldsOf = func(al *ssa.Alloc, depth int) map[string]ssa.Value {
+		fields := map[string]ssa.Value{}
+		for _, ref := range *al.Referrers() {
+			if st, ok := ref.(*ssa.Store); ok && st.Addr == ssa.Value(al) && depth < 3 {
+				if ld, ok := st.Val.(*ssa.UnOp); ok && ld.Op == token.MUL {
+					if src, ok := isReqCell(ld.X); ok && src != al {
+						for k, v := range fieldsOf(src, depth+1) {
+							fields[k] = v
 						}
 					}
 				}
+			}
+		}
+		own := map[string]bool{}
+		for _, ref := range *al.Referrers() {
+			fa, ok := ref.(*ssa.FieldAddr)
+			if !ok {
+				continue
+			}
+			name := core.FieldName(fa.X.Type(), fa.Field)
+			for _, r2 := range *fa.Referrers() {
+				if st, ok := r2.(*ssa.Store); ok && st.Addr == fa {
+					if own[name] {
+						fields[name+"#dup"] = st.Val
+					}
+					own[name] = true
+					fields[name] = st.Val
+				}
+			}
+		}
+		return fields
+	}
+	units := map[*types.Package]map[*ssa.Function]bool{}
+	for _, fn := range p.ModFuncs {
+		for _, b := range fn.Blocks {
+			for _, in := range b.Instrs {
+				al, ok := isReqCell(valueOf(in))
+				if !ok {
+					continue
+				}
+				lit := reqLiteral{Fn: fn, Alloc: al, Fields: fieldsOf(al, 0)}
 				if m, ok := lit.Fields["Method"]; ok {
 					lit.Method, lit.MethodOK = core.ConstString(m)
+					if !lit.MethodOK {
+						// a method handed in by the package's own callers: every value it can have
+						pk := core.FuncPkg(fn)
+						if units[pk] == nil {
+							units[pk] = map[*ssa.Function]bool{}
+							for _, f := range p.ModFuncs {
+								if core.FuncPkg(f) == pk {
+									units[pk][f] = true
+								}
+							}
+						}
+						var ms []string
+						all := true
+						for _, o := range core.Origins(m, core.SliceOpts{Helpers: units[pk], Callers: units[pk]}) {
+							if c, isC := core.ConstString(o.Val); o.Kind == core.OConst && isC {
+								ms = append(ms, c)
+							} else {
+								all = false
+							}
+						}
+						if all && len(ms) > 0 {
+							sort.Strings(ms)
+							ms = slices.Compact(ms)
+							lit.Method, lit.MethodOK = strings.Join(ms, "|"), true
+						}
+					}
 				}
 				lit.NoMirrors = lit.Fields["NoMirrors"]
 				out = append(out, lit)
@@ -88,6 +143,21 @@ func reqLiterals(p *core.Prog) []reqLiteral {
 		}
 	}
 	return out
+}
+
+func valueOf(in ssa.Instruction) ssa.Value {
+	v, _ := in.(ssa.Value)
+	return v
+}
+
+// readMethod reports whether every method the literal can carry is a read.
+func readMethod(m string) bool {
+	for _, x := range strings.Split(m, "|") {
+		if !readMethods[x] {
+			return false
+		}
+	}
+	return true
 }
 
 var readMethods = map[string]bool{"GET": true, "HEAD": true}
@@ -111,7 +181,7 @@ func c12R1(p *core.Prog, r *core.Report) {
 			continue
 		}
 		label := lab.next(fn + "|Req{Method:" + lit.Method + "}")[len(fn)+1:]
-		if readMethods[lit.Method] {
+		if readMethod(lit.Method) {
 			r.Held(rule, fn, label, pos, "read request; mirrors allowed")
 			continue
 		}
@@ -388,6 +458,14 @@ func loopInvariant(l *core.Loop, v ssa.Value) bool {
 				return true
 			case *ssa.FreeVar:
 				return false
+			}
+		}
+	}
+	if c, ok := v.(*ssa.Call); ok {
+		// len/cap of something the loop does not change
+		if b, ok := c.Call.Value.(*ssa.Builtin); ok && (b.Name() == "len" || b.Name() == "cap") && len(c.Call.Args) == 1 {
+			if loopInvariant(l, c.Call.Args[0]) {
+				return true
 			}
 		}
 	}
